@@ -84,6 +84,7 @@ TOKENS = ["(", ")", "{", "}", "[", "]", ";", ",", ".", "...", "=>", "=", "==", "
           "a", "b", "x", "arguments", "eval", "Symbol", "Proxy", "Reflect", "Object", "Array", "Promise", "#p", "@", "\\u0061", "\n", "//c\n", "/*c*/", "label:", "=>{}", "[]", "{}", "()"]
 
 NASTY = [
+    "var a = []; a.push(a); try { print(a.toLocaleString().length); } catch (e) { print(e.name); }",
     "[0xD800, 0xDBFF, 0xDC00, 0xDFFF, 0xFFFF, 0x10000, 0x10FFFF].forEach(function (c) { var s = String.fromCodePoint(c); print(s.length, s.charCodeAt(0).toString(16), s.isWellFormed(), s.toWellFormed().length, [...s].length, s.codePointAt(0), JSON.stringify(s).length, s.normalize('NFC').length, s.toUpperCase().length, s.padEnd(3, s).length, s.localeCompare(s)); try { print(encodeURIComponent(s)); } catch (e) { print(e.name); } });",
     "print(String.fromCharCode(0xD800, 0xDC00).codePointAt(0), String.fromCodePoint(0x1F600, 0xDC00, 0x41).length, '\\uD83D'.concat('\\uDE00').at(0).length, escape('\\uD800'), unescape('%uD800').length);",
     "var m = (-2147483647 - 1) | 0; print(m % -1, m / -1, m * -1, -m, m ** 2, m >> 31, m >>> 0);",
@@ -373,9 +374,27 @@ def run(ck):
         p = subprocess.run([bins["trace"]], input=b"\n".join(src) + b"\n", capture_output=True, timeout=3000)
         return p.returncode, p.stdout.decode("utf-8", "replace"), p.stderr.decode("utf-8", "replace")[-300:]
 
+    STUB = (b"Array.prototype.toLocaleString = function () { return ''; }; Object.getPrototypeOf(Int8Array).prototype.toLocaleString = function () { return ''; };\n")
+
+    def run_chunk3(chunk):
+        """run a chunk; when the process dies on a case, classify that case and go on with the rest in a new process"""
+        pieces = []
+        rest = chunk
+        while rest:
+            rc, out, err = run_chunk2(rest)
+            pieces.append((rest, rc, out, err))
+            if rc == 0:
+                break
+            answered = sum(1 for l in out.split("\n") if l.startswith("{"))
+            if answered >= len(rest):
+                break
+            rest = rest[answered + 1:]
+        return pieces
+
     with ThreadPoolExecutor(max_workers=16) as ex:
-        results = list(ex.map(run_chunk2, chunks))
-    for chunk, (rc, out, err) in zip(chunks, results):
+        nested = list(ex.map(run_chunk3, chunks))
+    flat = [piece for pieces in nested for piece in pieces]
+    for chunk, rc, out, err in flat:
         res = {}
         for l in out.split("\n"):
             if l.startswith("{"):
@@ -391,7 +410,15 @@ def run(ck):
                 if rc != 0:
                     # the process died: the first case without an answer is the one that killed it
                     npanic += 1
-                    ck.fail_input({"site": "process-abort", "input": text, "input_hex": b.hex(), "expected": "value | exception | limit error", "actual": "rc=%s %s" % (rc, err)})
+                    site = "process-abort"
+                    if "overflowed its stack" in err:
+                        # is it the unbounded NATIVE recursion of toLocaleString over a cyclic structure (recorded finding)? Then the same
+                        # input runs to an end when those two methods are replaced by stubs before anything else happens
+                        hdr = b"//// x reset=1 " + (b"loop=5000000 rec=300 budget=400000000" if kind == "builtin-sweep" else b"loop=3000 rec=200 stack=20000 budget=400000") + b"\n"
+                        p2 = subprocess.run([bins["trace"]], input=hdr + STUB + b.replace(b"\r", b" ") + b"\n", capture_output=True, timeout=3000)
+                        if p2.returncode == 0:
+                            site = "native-recursion-unbounded:toLocaleString"
+                    ck.fail_input({"site": site, "input": text, "input_hex": b.hex(), "expected": "value | exception | limit error", "actual": "rc=%s %s" % (rc, err)})
                     break
                 continue
             c = d["completion"]
